@@ -69,7 +69,8 @@ pub fn decode_c20(data: &[u8]) -> c20::Hist {
     let b = |k: usize| data.get(k).copied().unwrap_or(0);
     let kind = b(0) % 4;
     let observe = b(1) % 3;
-    let universe = [4usize, 6, 12, 40][(b(2) % 4) as usize];
+    let universe = [4usize, 6, 12, 40, 100, 300][(b(2) % 6) as usize];
+    let universe = if kind == 0 { universe.min(200) } else { universe };
     let mut ops = vec![];
     let mut i = 3;
     while i + 2 < data.len() && ops.len() < 200 {
